@@ -416,6 +416,7 @@ where
                     }
                     Poll::Ready(Some(Err(e))) => {
                         // Fuse.
+                        this.cur = None;
                         this.remaining = 0;
                         this.state = this.ranges.len() << 1 | 1;
                         return Poll::Ready(Some(Err(e)));
